@@ -15,11 +15,11 @@ Lemma bind_ok_inv {A B} (x : outcome A) (k : A -> outcome B) r :
   bind x k = Ok r -> exists a, x = Ok a /\ k a = Ok r.
 Proof. destruct x; cbn; intros H; try discriminate. eauto. Qed.
 
-(* ---- json.Unmarshal yields values without expression references ---- *)
-Lemma json_elems_plain (pv : bytes -> option (value * bytes)) :
-  (forall s v r, pv s = Some (v, r) -> plain v = true) ->
-  forall g s acc v r, Forall (fun x => plain x = true) acc ->
-                      json_elems pv g s acc = Some (v, r) -> plain v = true.
+(* ---- json.Unmarshal yields JSON data: finite numbers, well-formed objects, no expression reference ---- *)
+Lemma json_elems_json (pv : bytes -> option (value * bytes)) :
+  (forall s v r, pv s = Some (v, r) -> is_json v = true) ->
+  forall g s acc v r, Forall (fun x => is_json x = true) acc ->
+                      json_elems pv g s acc = Some (v, r) -> is_json v = true.
 Proof.
   intros Hpv. induction g as [|g IH]; intros s acc v r Hacc H; [discriminate|].
   cbn [json_elems] in H. destruct (pv s) as [[x r1]|] eqn:Ex; [|discriminate].
@@ -27,15 +27,15 @@ Proof.
   destruct (skip_ws r1) as [|c r2]; [discriminate|].
   destruct (N.eqb_spec c 44) as [->|]; [eapply IH; [|exact H]; constructor; assumption|].
   destruct (N.eqb_spec c 93) as [->|].
-  - assert (Hp : plain (VArr (rev (x :: acc))) = true) by (apply plain_arr; apply Forall_rev; constructor; assumption).
+  - assert (Hp : is_json (VArr (rev (x :: acc))) = true) by (apply is_json_arr; apply Forall_rev; constructor; assumption).
     inversion H; subst. exact Hp.
   - destruct c as [|p]; try discriminate; repeat (destruct p as [p|p|]; try discriminate); congruence.
 Qed.
 
-Lemma json_members_plain (pv : bytes -> option (value * bytes)) :
-  (forall s v r, pv s = Some (v, r) -> plain v = true) ->
-  forall g s acc v r, plain (VObj acc) = true ->
-                      json_members pv g s acc = Some (v, r) -> plain v = true.
+Lemma json_members_json (pv : bytes -> option (value * bytes)) :
+  (forall s v r, pv s = Some (v, r) -> is_json v = true) ->
+  forall g s acc v r, is_json (VObj acc) = true ->
+                      json_members pv g s acc = Some (v, r) -> is_json v = true.
 Proof.
   intros Hpv. induction g as [|g IH]; intros s acc v r Hacc H; [discriminate|].
   cbn [json_members] in H. destruct (skip_ws s) as [|c0 r0]; [discriminate|].
@@ -44,7 +44,7 @@ Proof.
   destruct (skip_ws r1) as [|c1 r2]; [discriminate|].
   destruct (N.eqb_spec c1 58) as [->|]; [|destruct c1 as [|p]; try discriminate; repeat (destruct p as [p|p|]; try discriminate); congruence].
   destruct (pv r2) as [[x r3]|] eqn:Ex; [|discriminate].
-  assert (Hx := Hpv _ _ _ Ex). assert (Hacc' := plain_obj_set k x acc Hx Hacc).
+  assert (Hx := Hpv _ _ _ Ex). assert (Hacc' := is_json_obj_set k x acc Hx Hacc).
   destruct (skip_ws r3) as [|c3 r4]; [discriminate|].
   destruct (N.eqb_spec c3 44) as [->|]; [eapply IH; [|exact H]; exact Hacc'|].
   destruct (N.eqb_spec c3 125) as [->|].
@@ -52,7 +52,7 @@ Proof.
   - destruct c3 as [|p]; try discriminate; repeat (destruct p as [p|p|]; try discriminate); congruence.
 Qed.
 
-Lemma parse_value_plain : forall fuel depth s v r, parse_value fuel depth s = Some (v, r) -> plain v = true.
+Lemma parse_value_json : forall fuel depth s v r, parse_value fuel depth s = Some (v, r) -> is_json v = true.
 Proof.
   induction fuel as [|fuel IH]; intros depth s v r H; [discriminate|].
   cbn [parse_value] in H. destruct (skip_ws s) as [|c rest]; [discriminate|].
@@ -64,23 +64,23 @@ Proof.
   - destruct (expect _ rest); inversion H; reflexivity.
   - destruct (string_body _ rest []) as [[b r']|]; inversion H; reflexivity.
   - destruct (scan_number (c :: rest)) as [[tok r']|]; [|discriminate].
-    destruct (num_parse_json tok); inversion H; reflexivity.
-  - assert (G : json_elems (parse_value fuel (depth + 1)) fuel rest [] = Some (v, r) -> plain v = true).
-    { apply json_elems_plain; [intros; eapply IH; eauto | constructor]. }
+    destruct (num_parse_json tok) as [n|]; [|discriminate]. destruct (num_finite n) eqn:Ef; inversion H; subst. exact Ef.
+  - assert (G : json_elems (parse_value fuel (depth + 1)) fuel rest [] = Some (v, r) -> is_json v = true).
+    { apply json_elems_json; [intros; eapply IH; eauto | constructor]. }
     destruct (skip_ws rest) as [|c2 rest2]; [apply G; exact H|].
     destruct (N.eqb_spec c2 93) as [->|]; [inversion H; reflexivity|].
     apply G. destruct c2 as [|p]; try exact H; repeat (destruct p as [p|p|]; try exact H); congruence.
-  - assert (G : json_members (parse_value fuel (depth + 1)) fuel rest [] = Some (v, r) -> plain v = true).
-    { apply json_members_plain; [intros; eapply IH; eauto | reflexivity]. }
+  - assert (G : json_members (parse_value fuel (depth + 1)) fuel rest [] = Some (v, r) -> is_json v = true).
+    { apply json_members_json; [intros; eapply IH; eauto | reflexivity]. }
     destruct (skip_ws rest) as [|c2 rest2]; [apply G; exact H|].
     destruct (N.eqb_spec c2 125) as [->|]; [inversion H; reflexivity|].
     apply G. destruct c2 as [|p]; try exact H; repeat (destruct p as [p|p|]; try exact H); congruence.
 Qed.
 
-Lemma json_unmarshal_plain s v : json_unmarshal s = Some v -> plain v = true.
+Lemma json_unmarshal_json s v : json_unmarshal s = Some v -> is_json v = true.
 Proof.
   unfold json_unmarshal. destruct (parse_value _ 0 s) as [[x r]|] eqn:E; [|discriminate].
-  destruct (skip_ws r); [|discriminate]. intros H. inversion H; subst. eapply parse_value_plain; eauto.
+  destruct (skip_ws r); [|discriminate]. intros H. inversion H; subst. eapply parse_value_json; eauto.
 Qed.
 
 (* ---- shapes ---- *)
@@ -333,7 +333,7 @@ Proof.
     inversion H; subst. exists (EIdent true (tvalue t)). split; reflexivity.
   - (* tJSONLiteral *)
     destruct (json_unmarshal (tvalue t)) as [v|] eqn:Ev; [|discriminate]. inversion H; subst.
-    exists (ELit v). split; [reflexivity | cbn; eapply json_unmarshal_plain; eauto].
+    exists (ELit v). split; [reflexivity | cbn; eapply json_unmarshal_json; eauto].
   - (* tStringLiteral *) inversion H; subst. exists (ERaw (tvalue t)). split; reflexivity.
   - (* tCurrent *) inversion H; subst. exists ECurrent. split; reflexivity.
   - (* tNot *)
